@@ -26,7 +26,9 @@ Inductive tok : Set :=
 | TWait (p : pid)
 | TTimeout (p : pid)
 | TEnd (p : pid)
-| TSnap.
+| TSnap
+| TUse (k : nat)                                    (* the following steps are made on session k *)
+| TClose (k : nat)                                  (* Session.Close of session k was called *).
 
 (* what handing the frame f to Session.Parse means for the waiter table *)
 Definition frame_event (f : bytes) : event :=
@@ -58,6 +60,8 @@ Definition events_of (classify : bytes -> res (option N)) (s : state) (t : tok) 
   | TTimeout p => Ok [Timeout p]
   | TEnd p => Ok [End p]
   | TSnap => Ok []
+  | TUse _ => Ok []
+  | TClose k => Ok [CloseSession k]
   end.
 
 (* run a script; returns the final state and the table size at every snapshot token (in order) *)
